@@ -84,6 +84,12 @@ def prepare(prog, case):
                              "_level": level}
                 if case.get("flood") and k == 1:
                     s["emit"]["flood"] = int(case["flood"])     # the first step logs very many records
+    if case.get("relevel"):
+        plain = [it for it in prog["features"][0]["items"] if it["k"] == "s" and it["steps"]
+                 and not it["steps"][-1]["o"].startswith("<")]
+        if plain:
+            index, level = case["relevel"]
+            plain[int(index) % len(plain)]["steps"][-1]["emit"]["relevel"] = level
 
 
 def log_captured(cfg, level_name, logger):
@@ -120,6 +126,8 @@ def check(case):
         extra.append("--logging-filter=%s" % cfg["logging_filter"])
     from ..harness import make_config
     config = make_config(cfg, extra_args=extra)
+    if case.get("relevel") and cap["log"]:
+        res.label("step-changes-root-logger-level")
     if case.get("store_all"):
         config.junit = True     # every scenario keeps its captured output for the reporters
     if case.get("capture_hooks"):
@@ -455,6 +463,12 @@ def random_case(draw):
         case["store_all"] = True
     if prog["cfg"]["capture_log"] and draw(st.integers(0, 7)) == 0:
         case["flood"] = draw(st.sampled_from([999, 1000, 1001, 1500, 2100]))
+    # the last step of one scenario changes the root logger's level (more verbose) and does not put it back
+    if prog["cfg"]["capture_log"] and draw(st.integers(0, 3)) == 0:
+        plain = [it for it in prog["features"][0]["items"] if it["k"] == "s" and it["steps"]
+                 and not it["steps"][-1]["o"].startswith("<")]
+        if plain:
+            case["relevel"] = [draw(st.integers(0, len(plain) - 1)), "DEBUG"]
     # step-hook faults
     if draw(st.integers(0, 4)) == 0:
         prog["hook_faults"] = [[draw(st.integers(0, 10000)), draw(st.sampled_from(["Exception", "AssertionError"]))]]
@@ -483,10 +497,12 @@ def explore(rec):
 
 def required_labels(tier):
     return ["capture:%d%d%d" % (a, b, c) for a in (0, 1) for b in (0, 1) for c in (0, 1)] + \
-           ["hook-emit", "failing-not-first", "step-hook-fault", "logging-level/filter", "setup_logging-in-before_all", "@capture-decorated-hooks", "log-flood>=999", "interrupt", "nested-steps", "cli", "cli:default-before_all"]
+           ["hook-emit", "failing-not-first", "step-hook-fault", "logging-level/filter", "setup_logging-in-before_all", "@capture-decorated-hooks", "log-flood>=999", "interrupt", "nested-steps", "cli", "cli:default-before_all",
+            "step-changes-root-logger-level"]
 
 
 KNOWN_PREDICATES = {}
 
 
 RULE = RULE + " " + ('The logging level may be re-configured in before_all with context.config.setup_logging(level=...) (DEBUG..ERROR records).')
+RULE = RULE + " " + ('In a quarter of the log-capturing cases the last step of one scenario sets the root logger to DEBUG and does not put it back: the level observed after the scenario is the one before it.')
